@@ -215,7 +215,7 @@ CHECKS["C05"] = {
     "parts": [
         {"engine": "P", "pkg": "internal/upstream/transport", "tests": [
             {"run": "TestVfC05Pipeline", "quick": 2400, "thorough": 160000, "shards_quick": 12, "shards_thorough": 16, "args": ["-rapid.steps", "50"], "timeout_thorough": 3400},
-            {"run": "TestVfC05Rollover", "quick": 2, "thorough": 960, "timeout_thorough": 3000, "shards_quick": 2, "shards_thorough": 16},
+            {"run": "TestVfC05Rollover", "quick": 8, "thorough": 960, "timeout_thorough": 3000, "shards_quick": 8, "shards_thorough": 16},
         ]},
     ],
     "assumptions": ["the server side is the harness's in-memory connection; dials always succeed (faults are C14's domain)"],
@@ -374,6 +374,10 @@ CHECKS["C14"] = {
     "level_note": "The 2 s slack is far below the 5-6 s I/O deadlines in the code, so a path that forgot the context is unmistakable.",
     "technique": "property-based fault injection (rapid) against scripted fake servers; bounded-time and bounded-dial oracles",
     "parts": [
+        {"engine": "P", "pkg": "internal/upstream/transport", "tests": [
+            # also part of C05: here for its "exchanges keep succeeding while a connection that ran out of wire IDs waits for its last replies" oracle
+            {"run": "TestVfC05Rollover", "quick": 4, "thorough": 160, "shards_quick": 4, "shards_thorough": 16, "timeout_thorough": 3000},
+        ]},
         {"engine": "P", "pkg": "internal/upstream", "tests": [
             {"run": "TestVfC14Faults", "quick": 320, "thorough": 37890, "shards_quick": 16, "shards_thorough": 16, "timeout_thorough": 3400},
             {"run": "TestVfC14Stale", "quick": 160, "thorough": 24000, "timeout_thorough": 3000, "shards_quick": 8, "shards_thorough": 16},
